@@ -4,158 +4,16 @@ import (
 	"fmt"
 	"testing"
 
+	"verif/pairs"
 	"verif/pk"
 	"verif/px"
 	"verif/sb"
 )
 
-// Hand-written snippets (bodies of main) around the places where two implementations of one language drift
-// apart: number formatting, failure classes of arithmetic, what a loop variable aliases, JSON, type names,
-// unicode, members of every builtin type. The oracle is the other backend.
-var agreeSnippets = []string{
-	// arithmetic failure classes and edge values
-	`let z = 0.0; println(1.0 / z);`,
-	`let z = 0.0; println(0.0 / z);`,
-	`let z = 0.0; println(-1.5 / z);`,
-	`let z = 0; println(7 / z);`,
-	`let z = 0; println(7 % z);`,
-	`let z = 0; let x = 7; x /= z; println(x);`,
-	`let z = 0.0; let x = 7.5; x /= z; println(x);`,
-	`println(2 ** 62, 2 ** 63, 2 ** 64, 2 ** -1, 0 ** 0, (0 - 2) ** 3);`,
-	`println(2.0 ** 0.5, 2.0 ** -1.0, 0.0 ** 0.0, (0.0 - 8.0) ** 0.5);`,
-	`println(9223372036854775807 + 1, (0 - 9223372036854775807 - 1) - 1, 9223372036854775807 * 2);`,
-	`let m = 0 - 9223372036854775807 - 1; println(m / (0 - 1), m % (0 - 1));`,
-	`println(1 << 62, 1 << 63, 1 << 64, 1 << 100, (0 - 1) >> 70, 5 >> 1);`,
-	`let s = 0 - 1; println(1 << s);`,
-	`let s = 0 - 1; println(8 >> s);`,
-	`println(7 / 2, (0 - 7) / 2, 7 % 3, (0 - 7) % 3, 7 % (0 - 3));`,
-	`println(7.5 / 2.0, 1.0 / 3.0, 100000000000000000000.0 * 10.0, 100000000000000000000.0, 0.0000001, 123456789.125, 0.1 + 0.2, 100.0, 1000000.0);`,
-	`println(1 as float, 1.9 as int, (0.0 - 1.9) as int, true as int, 0 as bool, 2 as bool, 1.5 as bool, 0.0 as bool);`,
-	`let big = 10.0 ** 300.0; println(big * big, (big * big) as int, 9900000000000000000.0 as int, (0.0 - big) as int);`,
-	`println(5 & 3, 5 | 3, 5 ^ 3, true & false, true | false, true ^ true);`,
-	`println(1.0 == 1.0, "a" == "a", [1] == [1], [1] == [2], ?1 == ?1, ?1 == none, new { a: 1 } == new { a: 1 }, (0..2) == (0..2));`,
-	`println(1 < 2, 1.5 <= 1.5, 2.5 > 2.5, 0 - 1 >= 0);`,
-	// display and to_string of every kind
-	`println(1, 1.0, 1.5, true, "s", ?1, ??1, 0..3, [1, 2], [[1], [2]], ["a"], new { a: 1 });`,
-	`println((1).to_string(), (1.0).to_string(), (2.50).to_string(), true.to_string(), (0..3).to_string(), [1].to_string(), (?1).to_string());`,
-	`println(new { b: 1, a: [new { z: 1, y: "s" }] });`,
-	`let o = new { ? }; o.set("b", 1); o.set("a", [1.0, 2.5]); o.set("n", none); println(o); println(o.to_string());`,
-	`println(0..3, 0..=3, (0..=3).start, (0..=3).end);`,
-	`for i in 0..=3 { print(i); } println(""); for i in 3..0 { print(i); } println(""); for i in 2..=2 { print(i); } println("");`,
-	`let r = 0..3; println(r.start, r.end, r.rev()); for i in r.rev() { print(i); } println("");`,
-	`println(1.0 as int, 100.0, 1000000.0, 1000000000000000.0, 10000000000000000.0, 12345678901234567890.0, 0.000001, 0.0000001);`,
-	// JSON
-	`println([1.0, 2.5].to_json(), [1, 2].to_json(), ["s"].to_json(), [true].to_json(), [?1, none].to_json(), [[1.0]].to_json());`,
-	`println(new { f: 2.0, i: 2, s: "x", n: none, o: ?1, l: [1.5, 2.0] }.to_json());`,
-	`println(new { f: 2.0, l: [1, 2] }.to_json_indent());`,
-	`let o = new { ? }; o.set("f", 2.0); o.set("i", 2); o.set("n", none); o.set("l", [1.0]); println(o.to_json()); println(o.to_json_indent());`,
-	`try { let l = "[1, 2.0, 2.5, 1e3, -0]".parse_json() as [float]; println(l); } catch e { println(e.message); }`,
-	`try { let l = "[1e400]".parse_json() as [float]; println(l); } catch e { println("caught"); }`,
-	`try { let l = "[1, 2.0, 2.5]".parse_json() as [int]; println(l); } catch e { println(e.message); }`,
-	`let o = "{\"a\": 1, \"b\": [true, null], \"c\": {\"d\": \"x\"}}".parse_json() as { ? }; println(o); println(o.keys()); println(o.to_json());`,
-	`let o = "{\"a\": 1, \"b\": null}".parse_json() as { a: int, b: ?int }; println(o, o.b.is_some());`,
-	`try { let v = "{bad".parse_json() as int; println(v); } catch e { println("caught", e.message.len() > 0); } println("after");`,
-	`try { let v = "".parse_json() as int; println(v); } catch e { println("caught"); } println("after");`,
-	`let s = "\"\\u00e9\\ud83d\\ude00\"".parse_json() as str; println(s, s.len());`,
-	`println(["é😀\"\\\n\t"].to_json());`,
-	`let v = "9007199254740993".parse_json() as int; println(v);`,
-	`try { let v: int = "1.0".parse_json(); println(v); } catch e { println(e.message); }`,
-	`try { let v: float = "2.0".parse_json(); println(v); } catch e { println(e.message); }`,
-	`try { let v = "2.0".parse_json() as float; println(v); } catch e { println(e.message); }`,
-	`try { let v: float = "2".parse_json(); println(v); } catch e { println(e.message); }`,
-	// where a failed cast points
-	`try { let l: [?int] = [none, ?1, ?"s"]; println(l); } catch e { println(e.message); }`,
-	`try { let o = "{\"a\": [1, \"x\"], \"b\": {\"c\": [null, true]}}".parse_json() as { a: [int], b: { c: [?int] } }; println(o); } catch e { println(e.message); }`,
-	`try { let o = "{\"a\": [1], \"b\": {\"c\": [null, true, \"t\"]}}".parse_json() as { a: [int], b: { c: [?int] } }; println(o); } catch e { println(e.message); }`,
-	`try { let o = "[[1, [2, \"z\"]]]".parse_json() as [[?int]]; println(o); } catch e { println(e.message); }`,
-	`try { let o = "{\"k\": 1}".parse_json() as { k: ?str }; println(o); } catch e { println(e.message); }`,
-	`try { let o = "{\"k\": 1, \"z\": 2}".parse_json() as { k: int }; println(o); } catch e { println(e.message); }`,
-	`try { let o = "{\"k\": 1}".parse_json() as { k: int, m: int }; println(o); } catch e { println(e.message); }`,
-	`try { let o = "{\"k\": {\"x\": 1}}".parse_json() as { k: { x: int, y: int } }; println(o); } catch e { println(e.message); }`,
-	`try { let o = "[{\"k\": [null, {\"d\": \"s\"}]}]".parse_json() as [{ k: [?{ d: int }] }]; println(o); } catch e { println(e.message); }`,
-	`let o = "[1, 2.0, true, 0, 1.5]".parse_json() as [bool]; println(o); let f = "[1, true, 2.5]".parse_json() as [float]; println(f); let i = "[true, 2.0, 3]".parse_json() as [int]; println(i);`,
-	`let l: [any] = "[1, 2]".parse_json(); let x: any = l; let back: [int] = x; println(back);`,
-	`let o: { ? } = "{\"a\": [1]}".parse_json(); let x: any = o; let back: { a: [int] } = x; println(back.a);`,
-	`let l: [any] = "[1, \"s\"]".parse_json(); let x: any = l; try { let back: [int] = x; println(back); } catch e { println(e.message); }`,
-	// any-objects
-	`let o = new { ? }; o.set("s", "x"); o.set("i", 1); o.set("f", 1.5); o.set("b", true); o.set("l", [1]); o.set("n", none); o.set("o", new { a: 1 }); o.set("r", 0..2); println(o.get_type("s"), o.get_type("i"), o.get_type("f"), o.get_type("b"), o.get_type("l"), o.get_type("n"), o.get_type("o"), o.get_type("r"));`,
-	`let o = new { ? }; try { println(o.get_type("missing")); } catch e { println("caught", e.message); }`,
-	`let o = new { ? }; o.set("k", 1); println(o.get("k"), o.get("nope"), o.get("k").is_some()); let v = o.get("k").unwrap() as int; println(v + 1);`,
-	`let o = new { ? }; o.set("k", 1); let p = new { ? }; p.set("k", 1); println(o == p, o == o); p.set("k", 2); println(o == p); p.set("k", 1.0); println(o == p);`,
-	`let a = new { ? }; let b = new { ? }; b.set("k", 1); a.set("inner", b); let c = a.to_json().parse_json() as { ? }; println(a == c, c == a, a.to_json() == c.to_json());`,
-	`let o = new { a: 1, b: "s" }; let ao = o as { ? }; println(ao.keys(), ao); ao.set("c", 1); println(o, ao.keys());`,
-	`let o = new { ? }; o.set("x", 1); let t: { x: int } = o.to_json().parse_json(); println(t.x); try { let u: { y: int } = o.to_json().parse_json(); println(u.y); } catch e { println(e.message); }`,
-	`let o = new { ? }; o.set("a", 1); println((o->a).is_some(), (o->missing).is_some());`,
-	// what loops and assignments alias
-	`let ll = [[1], [2]]; for l in ll { l.push(9); } println(ll);`,
-	`let os = [new { x: 1 }]; for o in os { o.x = 10; } println(os);`,
-	`let os = [?[1]]; for o in os { o.unwrap().push(2); } println(os);`,
-	`let l = [1, 2, 3]; for x in l { l.push(x); if l.len() > 10 { break; } } println(l);`,
-	`let l = [1, 2, 3]; for x in l { x += 1; } println(l);`,
-	`let a = [1]; let b = a; b.push(2); println(a, b);`,
-	`let a = new { l: [1] }; let b = a; b.l.push(2); println(a, b);`,
-	`let a = [[1]]; let b = a[0]; b.push(2); println(a);`,
-	`let s = "ab"; let t = s; t += "c"; println(s, t);`,
-	`let o = ?[1]; let p = o; p.unwrap().push(2); println(o);`,
-	`let l = [1, 2]; let f = fn(x: [int]) -> int { x.push(3); x.len() }; println(f(l), l);`,
-	`let l = [3, 1, 2]; let m = l; m.sort(); println(l);`,
-	`let x = 1; let f = fn(y: int) -> int { y + 1 }; println(f(x), x);`,
-	// many caught exceptions, then ordinary calls (both backends run with the same call-depth limit)
-	`let i = 0; let c = 0; while i < 1500 { i += 1; try { c += "x".parse_int(); } catch e { c += 1; } } println(i, c, [1].len());`,
-	`let i = 0; let c = 0; let o: ?int = none; while i < 1500 { i += 1; try { c += o.unwrap(); } catch e { c += 1; } } println(i, c, "ab".len());`,
-	`let i = 0; let c = 0; while i < 1500 { i += 1; try { throw("t"); } catch e { c += 1; } } println(i, c, (1).to_string());`,
-	`let i = 0; let c = 0; while i < 1500 { i += 1; try { c += "{bad".parse_json() as int; } catch e { c += 1; } } println(i, c, [1].len());`,
-	// strings and unicode
-	`println("héllo".len(), "héllo"[1], "héllo"[0], "日本語".len(), "日本語"[1]);`,
-	`try { println("héllo"[5]); } catch e { println("caught"); }`,
-	`println("héllo".substring(1), "héllo".to_upper(), "ß".to_upper(), "İ".to_lower(), "héllo".contains("é"), "héllo".replace("é", "e"));`,
-	`println("a,b,,c".split(","), "".split(","), "abc".split(""), "é😀".split(""));`,
-	`for c in "é😀a" { print(c, "|"); } println("");`,
-	`println("x".repeat(3), "x".repeat(0), "é😀".repeat(2));`,
-	`println("abc".starts_with("ab"), "abc".compare_lev("abd"), "é".compare_lev("e"), "".compare_lev("abc"));`,
-	`println("12".parse_int(), "1.5".parse_float(), "-3".parse_int(), "1e3".parse_float());`,
-	`try { println("x".parse_int()); } catch e { println("caught", e.message.len() > 0); }`,
-	`try { println("x".parse_float()); } catch e { println("caught"); }`,
-	`println("é" == "é", "é".len(), "é".len());`,
-	// lists and options
-	`let l = [3, 1, 2]; l.sort(); println(l, l.contains(2), l.contains(9), l.join(", "), l.last(), l.len());`,
-	`let l = ["b", "a"]; l.sort(); println(l, l.join("-")); let f = [2.5, 1.5]; f.sort(); println(f);`,
-	`let l = [1, 2, 3]; println(l.pop(), l.pop_front(), l); l.remove(0); println(l); l.insert(0, 9); l.push_front(8); println(l);`,
-	`let e: [int] = []; println(e.pop(), e.pop_front(), e.last(), e.len(), e.join(","));`,
-	`let l = [1, 2, 3]; println(l[-1], l[-3], l[0]); try { println(l[3]); } catch e { println("caught"); }`,
-	`let l = [1, 2, 3]; try { println(l[-4]); } catch e { println("caught"); }`,
-	`let l = [1]; try { l.remove(5); } catch e { println("caught"); } println(l);`,
-	`let l = [1]; try { l.insert(5, 1); } catch e { println("caught"); } println(l);`,
-	`let l = [1, 2]; l.concat([3]); println(l); let m = [[1]]; m.concat([[2]]); println(m);`,
-	`let o: ?int = none; println(o.is_some(), o.is_none(), o.unwrap_or(5), (?3).unwrap_or(5), (?3).unwrap(), (?3).expect("x"));`,
-	`let o: ?int = none; try { println(o.unwrap()); } catch e { println("caught", e.message); } println("after");`,
-	`let o: ?int = none; println(o.expect("custom message"));`,
-	`println(??1, (??1).unwrap(), (??1).unwrap().unwrap());`,
-	// control flow odds and ends
-	`let v = match 3 { 1 | 2 => "low", 3 => "three", _ => "other" }; println(v); println(match "s" { "s" => 1, _ => 2 }, match true { false => 1, _ => 2 }, match 1.5 { 1.5 => 1, _ => 2 });`,
-	`let v = match none { none => 1, _ => 2 }; println(v);`,
-	`let x = if false { 1 } else if false { 2 } else { 3 }; println(x);`,
-	`let i = 0; let s = 0; while i < 5 { i += 1; if i == 2 { continue; } if i == 4 { break; } s += i; } println(i, s);`,
-	`let v = try { throw("x"); 1 } catch e { 2 }; println(v);`,
-	`try { throw(new { code: 1 }); } catch e { println(e.message); }`,
-	`try { throw([1, 2]); } catch e { println(e.message); }`,
-	`try { throw(1.0); } catch e { println(e.message); }`,
-	`try { throw(none); } catch e { println(e.message); }`,
-	`try { try { throw("inner"); } catch e { throw(e.message + "!"); } } catch e2 { println(e2.message, e2.line > 0); }`,
-	`throw("uncaught " + (1).to_string());`,
-	`let l = [1]; println(l[1]);`,
-	`let d = time.now(); println(d.year > 2000);`,
-	`println(fmt("{} and {}", 1, "s"), fmt("no args"), fmt("{}", [1.0]));`,
-	`try { println(fmt("{} {}", 1)); } catch e { println("caught"); }`,
-	`assert(true); println("ok");`,
-	`assert(false);`,
-	`debug(1, [1.0], new { a: ?1 });`,
-}
-
 func TestTableAgreement(t *testing.T) {
 	pk.SkipIfReplay(t)
 	col := pk.NewCollector()
-	for k, body := range agreeSnippets {
+	for k, body := range pairs.Snippets {
 		if !pk.Mine(k) {
 			continue
 		}
